@@ -20,9 +20,13 @@ def run_case(args):
     try:
         with open(path, "w") as f:
             f.write(text)
-        for form in ("path", "string"):
+        import gzip
+        with gzip.open(path + ".gz", "wt") as f:
+            f.write(text)
+        for form in ("path", "string", "gz"):
             with S.quiet():
-                it = gffutils.DataIterator(path, checklines=c["cl"]) if form == "path" else gffutils.DataIterator(text, checklines=c["cl"], from_string=True)
+                it = (gffutils.DataIterator(path, checklines=c["cl"]) if form == "path" else gffutils.DataIterator(path + ".gz", checklines=c["cl"]) if form == "gz"
+                      else gffutils.DataIterator(text, checklines=c["cl"], from_string=True))
                 got = [S.fid(f) for f in it]
             if got != want_feats:
                 fails.append(("iterated_features_" + form, got))
@@ -49,7 +53,7 @@ def run_case(args):
     except Exception as e:  # noqa
         fails.append(("raised:" + type(e).__name__, str(e)[:200]))
     finally:
-        for p in (path, dbfn):
+        for p in (path, dbfn, path + ".gz"):
             if os.path.exists(p):
                 os.unlink(p)
     return fails
